@@ -1,4 +1,5 @@
 import JwtProofs.CodecText
+import JwtProofs.Segment
 import Props.CodecRoundTrip
 /-!
 # Text level of the codec on today's schemas
